@@ -24,6 +24,17 @@ def run(chk, tier):
         nrand = 60000 if thorough else 12000
         for i in range(nrand):
             progs.append(mjgen.random_program(len(progs), rnd, gen=False, maxd=3 + (i % 3 if thorough else i % 2)))
+        # fault scenarios: one abrupt statement / scripted iterator failure of a program becomes an uncatchable condition
+        # (interrupt, stack overflow, foreign Go panic): "interrupts and stack-overflow errors run none of them"
+        base = list(progs)
+        nf = 0
+        for p in base:
+            if thorough or p["id"] % 2 == 0:
+                q = mjgen.with_fault(p, len(progs), rnd)
+                if q:
+                    progs.append(q)
+                    nf += 1
+    chk.add("fault_programs", nf)
     with phase(chk, "oracle+goja"):
         states, bad, explained = oracle.compare(chk, binp, progs, wd, "l0", DEVS, "MiniJS L0-L1")
     chk.setcov("programs", len(progs))
